@@ -599,3 +599,52 @@ class LowerRescale_contract:
 
     def canary(sh, a, ret):
         check("canary: the result is always 0", bv_eq(ret["got"], 0, 8))
+
+
+EXT_CASES = ["narrow_mac", "ext_add", "canonical_mac"]
+
+
+@contract
+class check_kernel_equivalence_ext_contract:
+    """mixed-width bodies: where the sign extension sits matters (a narrow multiply wraps before it is widened) - bodies
+    that differ in the position of arith.extsi are only accepted if they compute the same function"""
+    target = "snaxc.transforms.convert_linalg_to_kernel.check_kernel_equivalence"
+    shapes = [dict(case=c, w=w) for c in EXT_CASES for w in (8, 16)]
+    native = False
+    total = True
+
+    def args(sh, sym):
+        set_bv_all(True)
+        w = sh["w"]
+        tn, tw = IntegerType(w), IntegerType(2 * w)
+        x0, x1, acc = mk_ssa(sym.bv("x0", w), tn), mk_ssa(sym.bv("x1", w), tn), mk_ssa(sym.bv("acc", 2 * w), tw)
+        # B: the kernel's own form  extsi; extsi; muli; addi acc
+        e0, e1 = arith.ExtSIOp(x0, tw), arith.ExtSIOp(x1, tw)
+        mb = arith.MuliOp(e0, e1)
+        rb = arith.AddiOp(mb, acc)
+        blk_b = Block([e0, e1, mb, rb, linalg.YieldOp(rb)])
+        if sh["case"] == "narrow_mac":
+            # A: multiply in the NARROW type, then widen, then accumulate
+            m = arith.MuliOp(x0, x1)
+            e = arith.ExtSIOp(m, tw)
+            r = arith.AddiOp(e, acc)
+            blk_a = Block([m, e, r, linalg.YieldOp(r)])
+        elif sh["case"] == "ext_add":
+            f0, f1 = arith.ExtSIOp(x0, tw), arith.ExtSIOp(x1, tw)
+            r = arith.AddiOp(f0, f1)
+            blk_a = Block([f0, f1, r, linalg.YieldOp(r)])
+        else:
+            f0, f1 = arith.ExtSIOp(x0, tw), arith.ExtSIOp(x1, tw)
+            m = arith.MuliOp(f0, f1)
+            r = arith.AddiOp(m, acc)
+            blk_a = Block([f0, f1, m, r, linalg.YieldOp(r)])
+        return [blk_a, blk_b, den(r), den(rb)]
+
+    def ensures(sh, a, ret):
+        if ret:
+            check("bodies accepted as equivalent compute the same value for all inputs (mixed widths)", bv_eq(a[2], a[3], 2 * sh["w"]))
+        else:
+            check("the kernel's own form is accepted", sh["case"] != "canonical_mac")
+
+    def canary(sh, a, ret):
+        check("canary: nothing is ever equivalent", not ret)
